@@ -9,7 +9,7 @@ import re
 TOK = re.compile(r'\s*(?:(\d+)[uUlL]*|([A-Za-z_][A-Za-z_0-9]*)|(->|<<|>>|[-+*/%&|^~().,\[\]]))')
 
 CASTS = {'gint', 'guint', 'guint32', 'gint32', 'gsize', 'int', 'unsigned', 'guint16', 'gint64', 'guint64',
-         'size_t', 'gssize', 'guint8'}
+         'size_t', 'gssize', 'guint8', 'long', 'short', 'char', 'signed'}
 
 
 class CExprError(Exception):
@@ -104,10 +104,12 @@ class Parser(object):
                 name = name + '.' + self.eat('id')
             return ('id', name)
         if k == 'op' and v == '(':
-            # cast?
-            if self.i + 2 < len(self.t) and self.t[self.i + 1][0] == 'id' and self.t[self.i + 1][1] in CASTS \
-                    and self.t[self.i + 2] == ('op', ')'):
-                self.i += 3
+            # cast?  ( type-word+ )
+            j = self.i + 1
+            while j < len(self.t) and self.t[j][0] == 'id' and self.t[j][1] in CASTS:
+                j += 1
+            if j > self.i + 1 and j < len(self.t) and self.t[j] == ('op', ')'):
+                self.i = j + 1
                 return self.unary()
             self.i += 1
             e = self.binary(0)
